@@ -34,6 +34,17 @@ def case_gen(rng, k):
     return gen.gen_case(rng, groups=True)
 
 
+def extra_cases(seed):
+    """families added after the main stream was fixed (run in addition): two trigger paths of different delay between one pair"""
+    import random
+    out = []
+    for j in range(12):
+        rng = random.Random(seed * 6007 + j)
+        case = gen.gen_two_path_case(rng)
+        out.append((case, dict(lazy=bool(j % 2), cache=bool(j % 3), strategy=gen.pick_strategy(rng, case), seed=seed * 100 + j)))
+    return out
+
+
 def run(out, info, tier, seed):
     out.trusted_base = common.COMMON_TRUSTED + [
         'modelled by hand: sim_process/next_step_settled/wait_for_dependencies/step/get_outputs/notify_dependencies/advance_progress/'
@@ -42,7 +53,7 @@ def run(out, info, tier, seed):
         'theorem premise static_ok (shape facts + ancestors closure dominates every trigger path) is discharged per scenario by the table comparison, not yet by a closure theorem']
     out.assumptions = ['simulators are an oracle: any reply sequence (event list); delays compared have equal shape (convex group scenarios)']
     sched_check.sched_property(out, info, tier, seed, 'C01', KINDS, monitors.P_C01, gen_opts=dict(groups=True),
-                               case_gen=case_gen,
+                               case_gen=case_gen, extra_cases=extra_cases(seed),
                                ncases=(220, 2000), nontrivial=nontrivial, features=features,
                                extra_obligations=[('Sched.Inv (invariant preserved by every event)', 'Sched/Inv'),
                                                   ('Sched.Main (lifting to runs from the initial state)', 'Sched/Main')])
